@@ -49,7 +49,7 @@ var debuggerOwned = map[string]bool{"Debugger": true, "debugRoutine": true, "fra
 
 func c19R1(ic *IC, r *Report) {
 	g := buildSGraph(ic.SP)
-	runCfg := ic.SP.Func("runCfg")
+	runCfg := ic.ssaFunc("runCfg")
 	if runCfg == nil {
 		r.Errorf("anchor not resolved: runCfg")
 		return
@@ -81,7 +81,7 @@ func c19R1(ic *IC, r *Report) {
 			roots[f] = true
 		}
 	}
-	if f := ssaMethod(ic.SP, "Interpreter", "Debug"); f != nil {
+	if f := ic.ssaMeth("Interpreter", "Debug"); f != nil {
 		roots[f] = true
 	} else {
 		r.Errorf("anchor not resolved: (*Interpreter).Debug")
